@@ -207,7 +207,7 @@ def do_replay(run: core.Run, path: str) -> int:
                 pass
     try:
         ident = dict(w.get('ident') or {})
-        ident['tier'] = 'thorough'
+        os.environ['VERIF_TIMEOUT_SCALE'] = str(4 * float(os.environ.get('VERIF_TIMEOUT_SCALE', '1')))
         r = passcat.run_case(get, drop, entry, circuit, opts, ident)
     finally:
         drop()
